@@ -656,3 +656,95 @@ def run_constant_kinds(rec, S, F):
             if not ok:
                 rec.finding(R, "F1.k/%s/%s" % (who, op), "%s emits %s with a constant index of origin %s, but the handler casts that constant to %s without a test" % (who, op, origs, sorted(want)), loc=loc_of(s["sp"]), fn=fn.path)
     rec.floor(R, "emissions of constant-casting opcodes", n, 15)
+
+
+def run_number_constants(rec, F):
+    """F1.k-num — what may enter the constant table as a number"""
+    R = rec.rule("F1.k-num", "the per-function constant table de-duplicates with Value's own == and hash, which the two representations define differently for 0/-0 and NaN; every number that reaches make_constant/emit_constant is therefore the unmodified result of parsing a literal token (non-negative, never NaN): no arithmetic or negation is folded into a constant")
+    n = 0
+    for fn in F.all_fns():
+        if "compiler::Compiler" not in fn.path or "::test" in fn.path:
+            continue
+        for bi, t in fn.calls():
+            if lastseg(t["f"]) not in ("emit_constant", "make_constant") or len(t["args"]) < 2:
+                continue
+            r = fn.root_of(t["args"][1])
+            if not (r[0] == "call" and "From<f64>" in r[1]["f"]):
+                continue
+            n += 1
+            r2 = fn.root_of(r[1]["args"][0])
+            ok = False
+            if r2[0] == "call" and lastseg(r2[1]["f"]) in ("expect", "unwrap"):
+                r3 = fn.root_of(r2[1]["args"][0])
+                ok = r3[0] == "call" and lastseg(r3[1]["f"]) == "parse"
+            rec.inst(R, "%s: number constant is a parsed literal" % fn.name, ok=ok, loc=loc_of(t["sp"]))
+            if not ok:
+                what = ("%s %s" % (r2[1]["k"], r2[1].get("op", ""))) if r2[0] == "rvalue" else (lastseg(r2[1]["f"]) if r2[0] == "call" else r2[0])
+                rec.finding(R, "F1.k-num/%s" % fn.name, "Compiler::%s puts a computed number (%s) into the constant table: the table is keyed by Value equality, so e.g. -0 and 0 share one slot in the tagged-enum build and not in the NaN-boxed one (the literal that comes second silently becomes the first)" % (fn.name, what.strip()), loc=loc_of(t["sp"]), fn=fn.path)
+    rec.floor(R, "number constant emissions", n, 1)
+
+
+PARSER = "laythe_vm/src/compiler/parser.rs"
+
+
+def parser_fns(S):
+    out = {}
+    for cont, it in S.walk_items(PARSER):
+        if it.get("k") == "fn" and any(c[0] == "impl" and c[1].startswith("Parser") and c[2] is None for c in cont) and not any(c[0] == "mod" for c in cont):
+            out[it["name"]] = it
+    return out
+
+
+def run_parser_function_context(rec, S):
+    """break/continue are legal only inside a loop *of the same function*: the parser's loop_depth is per function"""
+    from ..facts import walk_expr
+    R = rec.rule("F2.scope-fn", "every parser method that starts a new function context (installs a new fun_kind) parses the body with loop_depth reset to 0 and restores it afterwards, itself or in the method it delegates the body to: otherwise `break`/`continue` inside a lambda that merely sits in a loop passes the parser and reaches the compiler, which has no loop to jump to")
+    fns = parser_fns(S)
+    if not fns:
+        rec.anchor_lost("F2.scope-fn", "impl Parser")
+        return
+
+    def is_self_field(e, fld):
+        return isinstance(e, dict) and e.get("e") == "field" and synq.src(e.get("base")) == "self" and e.get("f") == fld
+
+    def resets_loop_depth(f):
+        body = f.get("body") or {}
+        saved, zero, restored = set(), False, False
+        for x in walk_expr(body):
+            if isinstance(x, dict) and "stmts" in x and isinstance(x["stmts"], list):
+                for st in x["stmts"]:
+                    if st.get("s") == "let" and st.get("init") is not None and st["pat"].get("p") == "ident":
+                        init = st["init"]
+                        if is_self_field(init, "loop_depth"):
+                            saved.add(st["pat"]["name"])
+                        if init.get("e") == "call" and synq.src(init.get("f")).endswith("mem::replace") and init.get("args") and init["args"][0].get("e") == "ref" and is_self_field(init["args"][0].get("a"), "loop_depth"):
+                            saved.add(st["pat"]["name"])
+                            zero = zero or synq.src(init["args"][1]).strip() == "0"
+            if isinstance(x, dict) and x.get("e") == "assign" and is_self_field(x.get("a"), "loop_depth"):
+                if x["b"].get("e") == "lit" and x["b"].get("v") == "0":
+                    zero = True
+                elif x["b"].get("e") == "path" and x["b"].get("p") in saved:
+                    restored = True
+        return bool(saved) and zero and restored
+    n = 0
+    for name, f in sorted(fns.items()):
+        body = f.get("body") or {}
+        installs = False
+        for x in walk_expr(body):
+            if isinstance(x, dict) and x.get("e") == "call" and synq.src(x.get("f")).endswith("mem::replace") and x.get("args") and x["args"][0].get("e") == "ref" and is_self_field(x["args"][0].get("a"), "fun_kind"):
+                installs = True
+        if not installs:
+            continue
+        n += 1
+        ok = resets_loop_depth(f)
+        via = name
+        if not ok:
+            for x in walk_expr(body):
+                if isinstance(x, dict) and x.get("e") == "mcall" and synq.src(x.get("recv")) == "self" and x.get("m") in fns and x["m"] != name:
+                    if resets_loop_depth(fns[x["m"]]):
+                        ok = True
+                        via = x["m"]
+        rec.inst(R, "Parser::%s parses its body with loop_depth reset (in %s)" % (name, via), ok=ok, loc=L(PARSER, f["line"]))
+        if not ok:
+            rec.finding(R, "F2.scope-fn/%s" % name, "Parser::%s starts a new function (installs fun_kind) but neither it nor the method it hands the body to resets loop_depth: `while c { let f = || { break; }; }` is accepted and the compiler then panics ('Parser should have caught the loop constraint')" % name, loc=L(PARSER, f["line"]), fn=name)
+    rec.floor(R, "function-context entry points in the parser", n, 3)
